@@ -60,6 +60,9 @@ CHECKS = {
  "C04": ("runtime crash/hang monitor: every exported parsing/matching entry point x system driven with random, grammar-derived, mutated and very long inputs in child processes (input logged before each call, recover around each call, memory cap, watchdog + solo re-run), resolvers over hostile universes under a logical step budget",
          "Exploration: a recovered panic, a child death (fatal error, stack overflow, memory cap) reproduced by a solo re-run, a call that does not return within the watchdog even alone, or a resolution still asking the client after 5x the step budget is a violation with the logged input as witness; every (entry point, system) pair is gated to a minimum call count.",
          "Wall clock is used only by the outer watchdog (a second firing is inconclusive); super-linear but terminating running times are not reported.", "§6 C04"),
+ "C18": ("runtime monitor of the API-backed client over an in-process gRPC Insights service: bundle/alias invariants on all four client calls, differential resolution against a LocalClient loaded with an independently encoded copy of the same registry, recorded concurrent call histories value-checked and linearizability-checked (porcupine), race-detector child with yield hook H2",
+         "Exploration over generated npm registries (bundle trees to depth 3, aliases incl. scoped names and inner '@', all dependency sections): invariants after every Requirements call, graph equality APIClient vs LocalClient for every root, 2/8/16 goroutines on one client with seeded server delays and H2 yields between critical sections; every concurrent result equals the sequential one, every history is linearizable against the 'bundles visible once the parent's Requirements has taken effect' model, no race report with a deps.dev frame.",
+         "The mangling convention is re-implemented independently (never calls npmRequirements); resolutions exhausting the step budget on both clients are skipped; the race detector sees executed interleavings only (distinct call orders are counted).", "§6 C18"),
 }
 NOT_YET = {}
 
